@@ -337,10 +337,35 @@ def guards_chain(ctx, mod, clsname):
         return [ctx.cls(mod, clsname)]
 
 
+def r6_prolog_order(ctx):
+    """the rendering is well-formed XML for every parameter setting: a DOCTYPE belongs to the prolog - no element may
+    have been opened (writer.push / elem / empty) on any path that reaches the writer.doctype(...) call"""
+    fn = ctx.func('x12xml', 'x12xml.__init__')
+    g = ctx.cfg(fn)
+
+    def calls(nd, meths):
+        return any(isinstance(x, ast.Call) and A.call_target(x)[0] == 'self.writer' and A.call_target(x)[1] in meths for x in g.walk_exprs(nd))
+    doct = [nd for nd in g.nodes if calls(nd, ('doctype',))]
+    opens = [nd for nd in g.nodes if calls(nd, ('push', 'elem', 'empty'))]
+    if not doct or not opens:
+        raise AnalysisError('x12xml.__init__: doctype / root push not found')
+    bad = None
+    for o in opens:
+        p = g.find_path(o, lambda n: n in doct)
+        if p:
+            bad = o
+    yield Ob('x12xml:x12xml.__init__ DOCTYPE is written before the root element is opened', bad is None, ctx.floc(fn, doct[0].stmt),
+             '' if bad is None else 'an element is opened at line %s before the DOCTYPE is written: with a DTD configured the document is not well-formed' % bad.lineno)
+    # the root is opened on every path
+    p = g.find_path(g.entry, lambda n: n is g.exit, blocked=lambda n: n in opens)
+    yield Ob('x12xml:x12xml.__init__ opens the root element on every path', p is None, ctx.floc(fn), '' if p is None else 'the root push can be skipped')
+
+
 RULES = [
     Rule('C08.R1', 'XML vocabulary agreement writer<->reader; every element id designates its own position', r1_vocabulary, floor=11000),
     Rule('C08.R2', 'content/attribute escaping: & first, <, quote char; every value passes its escape', r2_escaping, floor=9),
     Rule('C08.R3', 'segment/composite push-pop balance (post-dominance)', r3_balance, floor=4),
     Rule('C08.R4', 'same emptiness predicate on both sides; every <seg> converted in order', r4_empty_agreement, floor=3),
     Rule('C08.R5', 'loop nesting is derived from the matched node at every call; no other state between segments', r5_nesting_from_current_node, floor=3),
+    Rule('C08.R6', 'DOCTYPE precedes the root element; the root is always opened', r6_prolog_order, floor=2),
 ]
